@@ -43,15 +43,16 @@ TIERS = {
 # judging an observation against the allowed set printed by TLC
 # ---------------------------------------------------------------------------
 def admits(allowed, o, shell=False):
+    """Arith!Admits on the JSON forms (the generator prints the allowed set)."""
     if o["t"] == "p":
         return False
     if any(a["t"] == "u" for a in allowed):
         return True
     if o["t"] == "v":
         return any(a["t"] == "v" and a["v"] == o["v"] and a["env"] == o["env"] for a in allowed)
-    if shell:   # the shell run only tells "value" from "error"
+    if shell or o["t"] == "e":   # the shell run only tells "value" from "error"
         return any(a["t"] in ("e", "s") for a in allowed)
-    return any(a["t"] == o["t"] for a in allowed)
+    return any(a["t"] == "s" or (a["t"] == "e" and a["c"] == "NotAssignable") for a in allowed)
 
 
 _OPS = ["<<=", ">>=", "||", "&&", "|=", "^=", "&=", "==", "!=", "<=", ">=", "<<", ">>", "+=", "-=", "*=", "/=", "%=",
